@@ -4,11 +4,12 @@ CONSTANTS
   Msgs <- SmallMsgs
   MaxMsgs = 2
   LenMode = "bytes"
+  IdDecode = "strict"
   Variants <- VariantsDef
   ChunkMax = 2
   AllCuts = TRUE
 INIT Init
 NEXT Next
 VIEW View
-INVARIANTS TypeOK ReadIsPrefixOfSent LengthCountsBytes Lossless MalformedGivesError LenientIsSafe NeverWaitsAfterEOF NeverWaitsAfterCompleteFrame ChunkingIrrelevant
+INVARIANTS TypeOK ReadIsPrefixOfSent LengthCountsBytes Lossless MalformedGivesError LenientIsSafe NeverWaitsAfterEOF NeverWaitsAfterCompleteFrame ChunkingIrrelevant IdsPreserved
 CHECK_DEADLOCK FALSE
